@@ -149,13 +149,26 @@ def path_conditions(fn, target) -> List[Tuple[ast.AST, bool]]:
     out = _Out()
     if p is None:
         return out
+
+    def flag(block, j, test):
+        # `t = E` directly followed by `if t:` / `if not t:` tests E (nothing runs between the two statements)
+        inner, neg = test, False
+        while isinstance(inner, ast.UnaryOp) and isinstance(inner.op, ast.Not):
+            inner, neg = inner.operand, not neg
+        if isinstance(inner, ast.Name) and j > 0:
+            prev = block[j - 1]
+            if isinstance(prev, ast.Assign) and len(prev.targets) == 1 and isinstance(prev.targets[0], ast.Name) and prev.targets[0].id == inner.id \
+                    and not any(isinstance(n, ast.Name) and n.id == inner.id for n in ast.walk(prev.value)):
+                return ast.UnaryOp(op=ast.Not(), operand=prev.value) if neg else prev.value
+        return test
+
     for k, (block, idx) in enumerate(p):
-        for st in block[:idx]:
+        for j_, st in enumerate(block[:idx]):
             if isinstance(st, ast.If):
                 if _leaves(st.body) and not _leaves(st.orelse):
-                    out.append(_literal(st.test, False))
+                    out.append(_literal(flag(block, j_, st.test), False))
                 elif st.orelse and _leaves(st.orelse) and not _leaves(st.body):
-                    out.append(_literal(st.test, True))
+                    out.append(_literal(flag(block, j_, st.test), True))
             elif isinstance(st, ast.Assert):
                 out.append(_literal(st.test, True))
             elif isinstance(st, ast.While) and not st.orelse and not any(isinstance(n, ast.Break) for n in ast.walk(st)) \
@@ -175,10 +188,11 @@ def path_conditions(fn, target) -> List[Tuple[ast.AST, bool]]:
             st = block[idx]
             nxt = p[k + 1][0]
             if isinstance(st, (ast.If, ast.While)):
+                test = flag(block, idx, st.test) if isinstance(st, ast.If) else st.test
                 if nxt is st.body:
-                    out.append(_literal(st.test, True))
+                    out.append(_literal(test, True))
                 elif nxt is st.orelse:
-                    out.append(_literal(st.test, False))
+                    out.append(_literal(test, False))
     return out
 
 
